@@ -56,6 +56,10 @@ def cases(tier, seed):
     tols = (1e-2, 1e-3) if quick else (1e-2, 1e-3, 1e-4)
     for d, B, tol, ab, mi in itertools.product(devs, fields, tols, range(len(AB)), (1000, 3)):
         out.append(dict(fam="run", dev=d, B=B, tol=tol, ab=ab, maxit=mi))
+    if quick:
+        # a biased device (terminals and screening together)
+        for mi in (1000, 3):
+            out.append(dict(fam="run", dev="G1b", B=0.2, tol=1e-2, ab=0, maxit=mi))
     # the same physics stated in other units (xi = 1000 nm / 1e-3 mm): pins the powers of xi in the SI prefactor
     for d, B in itertools.product(("G5nm", "G5mm"), (0.2,) if quick else fields):
         for tol in (1e-3,) if quick else tols:
